@@ -10,36 +10,52 @@ func tuneConfig(c *Config, prop string, r *rand.Rand) {
 	}
 }
 
-// Drain lets the honest machinery settle what is in flight: faults stop, stalled chains resume,
-// every orchestrator polls and signs, relayers submit, blocks are produced. It is also the window
-// in which bounded liveness is judged.
+// Drain lets the honest machinery settle what is in flight. It is ONE intent ("settle"), so that
+// minimisation cannot cut the honest work out from under the bounded-liveness oracle.
 func (g *Gen) Drain() {
-	w := g.W
+	g.emit(Intent{T: "settle", N: 8})
+}
+
+// settle: faults stop, stalled chains resume, every validator polls and signs, relayers submit, blocks are
+// produced, for n rounds. It is also the window in which bounded liveness is judged.
+func (w *World) settle(rounds int) {
 	for _, ch := range Chains {
-		if w.Stalled[ch] {
-			g.emit(Intent{T: "stall", Chain: ch, Op: "off"})
-		}
+		w.Stalled[ch] = false
 	}
 	w.FaultsStoppedAt = w.N().Height
-	rounds := 8
 	for k := 0; k < rounds && !w.Stopped(); k++ {
 		for _, ch := range Chains {
 			for v := range w.Vals {
-				g.emit(Intent{T: "orch_poll", V: v, Chain: ch, N: 10})
+				w.doOrchPoll(Intent{T: "orch_poll", V: v, Chain: ch, N: 10})
 			}
+			// validators created during the run vote with their own account
+			w.doOrchPoll(Intent{T: "orch_poll", Chain: ch, N: 10, As: "newval0"})
+			w.doOrchPoll(Intent{T: "orch_poll", Chain: ch, N: 10, As: "newval1"})
 		}
-		g.emit(Intent{T: "block", Dt: 5, N: 1})
+		w.ProduceBlock(5, nil)
 		for _, ch := range Chains {
 			for v := range w.Vals {
-				g.emit(Intent{T: "orch_sign", V: v, Chain: ch})
+				w.doOrchSign(Intent{T: "orch_sign", V: v, Chain: ch})
 			}
 		}
-		g.emit(Intent{T: "block", Dt: 5, N: 1})
+		w.ProduceBlock(5, nil)
 		for _, ch := range Chains {
-			g.emit(Intent{T: "relay", Chain: ch, Op: "valset", Pick: 0})
-			g.emit(Intent{T: "relay", Chain: ch, Op: "batch", Pick: 0, Gas: "1000"})
-			g.emit(Intent{T: "relay", Chain: ch, Op: "batch", Pick: 1, Gas: "1000"})
+			w.doRelay(Intent{T: "relay", Chain: ch, Op: "valset", Pick: 0})
+			w.doRelay(Intent{T: "relay", Chain: ch, Op: "batch", Pick: 0, Gas: "1000"})
+			w.doRelay(Intent{T: "relay", Chain: ch, Op: "batch", Pick: 1, Gas: "1000"})
 		}
-		g.emit(Intent{T: "block", Dt: 5, N: 1})
+		w.ProduceBlock(5, nil)
 	}
+	// what the last relays produced must still be observed: three more poll-only rounds
+	for k := 0; k < 3 && !w.Stopped(); k++ {
+		for _, ch := range Chains {
+			for v := range w.Vals {
+				w.doOrchPoll(Intent{T: "orch_poll", V: v, Chain: ch, N: 10})
+			}
+			w.doOrchPoll(Intent{T: "orch_poll", Chain: ch, N: 10, As: "newval0"})
+			w.doOrchPoll(Intent{T: "orch_poll", Chain: ch, N: 10, As: "newval1"})
+		}
+		w.ProduceBlock(5, nil)
+	}
+	w.Settled = !w.Stopped()
 }
